@@ -336,7 +336,9 @@ def judge(world, r):
         env = r.do_exc.get("os_error") and (getattr(r, "fault_fired", False) or req.get("os_error_expected"))
         if not r.do_exc["rope_error"] and not env:       # the refusing file system / a hand-built impossible move:
             bad.append(("P5-perform-crash", "Project.do raised %s: %s" % (r.do_exc["cls"], r.do_exc["msg"])))
-        if L.content_view(r.s2) != L.content_view(r.s1):
+        if getattr(r, "fault_in_rollback", False):
+            pass            # the file system refused a call of the rollback itself: a double failure, not judged
+        elif L.content_view(r.s2) != L.content_view(r.s1):
             bad.append(("P5-perform-not-atomic", "Project.do raised but the tree differs at %s" % ", ".join(
                 L.snap_diff(r.s1, r.s2, mtime=False)[:5])))
     if r.undo_exc is not None:
@@ -1006,7 +1008,7 @@ class LiveSession:
         for j in range(0, 14):
             r = self._serve(dict(req, no_undo=True, **{key: j}))
             out.append(r)
-            if r.outcome != "changes" or not r.performed or r.do_exc is None:
+            if r.outcome != "changes" or not r.performed or r.do_exc is None or getattr(r, "fault_in_rollback", False):
                 break
         return out
 
@@ -1098,8 +1100,8 @@ def gen_session(rng, world, n_steps):
             records = live.step(step)
             steps.append(step)
             yield list(steps), cur, records
-            if any(r.outcome == "hang" for r in records):
-                break
+            if any(r.outcome == "hang" or getattr(r, "fault_in_rollback", False) for r in records):
+                break           # a hang, or a rollback the file system refused: the project is no longer in a defined state
     finally:
         live.close()
 
@@ -1218,7 +1220,9 @@ def run(ctx):
             if getattr(r, "stop", None) is not None:
                 ctx.count("perform_under_stopped_handle:%s" % ("refused" if r.do_exc else "went through"))
             if getattr(r, "fault", None) is not None:
-                ctx.count("perform_on_refusing_file_system:%s" % ("refused" if r.do_exc else "went through"))
+                ctx.count("perform_on_refusing_file_system:%s" % (
+                    "refusal hit the rollback (not judged)" if getattr(r, "fault_in_rollback", False)
+                    else "refused" if r.do_exc else "went through"))
             ctx.count("leaves:%d" % min(len(L.leaves(r.spec)), 6))
             for l in L.leaves(r.spec):
                 ctx.count("leaf:%s" % l[0])
